@@ -705,7 +705,7 @@ def map_iter(mm, what):
             items.append((c, ('key', k)))
         else:
             items.append((c, ('val', v)))
-    return mk_iter(IterM('mapiter', items=items, pos=0, what=what))
+    return mk_iter(IterM('mapiter', items=items, pos=0, what=what, by_ref=True))
 
 
 _MAP_T = r'(std::collections::)?(HashMap|HashSet|BTreeMap|BTreeSet)::<.*>'
